@@ -1388,7 +1388,8 @@ def c14(ctx: Ctx) -> None:
     from ..sym import expand_inlined
     kexpr = subst(expand_inlined(g, stores[0].meta['value']), env)
     ktxt = norm(kexpr)
-    verdict, why = classify_key(kexpr, va, kw)
+    mod_helpers = {c.name: c.node for c in r.wrapper.unit.module_scope.children if c.kind == 'function'}
+    verdict, why = classify_key(kexpr, va, kw, mod_helpers)
     inst = f'key = {ktxt}'
     if verdict == 'good':
         ctx.holds('C14-R1', inst, _loc(g, stores[0]), why)
@@ -1466,7 +1467,7 @@ def _kwform(e: ast.expr, kw: str) -> str:
     return norm(R().visit(clone(e)))
 
 
-def classify_key(k: ast.expr, va: str, kw: str) -> Tuple[str, str]:
+def classify_key(k: ast.expr, va: str, kw: str, helpers: Optional[Dict[str, ast.AST]] = None) -> Tuple[str, str]:
     """good / bad / unknown for the cache-key expression."""
     names = {x.id for x in ast.walk(k) if isinstance(x, ast.Name)}
     if va not in names:
@@ -1505,6 +1506,36 @@ def classify_key(k: ast.expr, va: str, kw: str) -> Tuple[str, str]:
                 return 'bad', f'keyword part {norm(el)}: {BAD_KW[f]}'
             elif isinstance(el, ast.Call) and isinstance(el.func, ast.Name) and el.func.id in BAD_WRAPPERS:
                 return 'bad', f'keyword part is {el.func.id}(...)'
+            elif isinstance(el, ast.Call) and isinstance(el.func, ast.Name) and helpers and el.func.id in helpers and len(el.args) == 1 \
+                    and isinstance(el.args[0], ast.Name) and el.args[0].id == kw and not el.keywords:
+                # a module-level helper that encodes the keywords: each value it can return is an encoding of its own
+                h = helpers[el.func.id]
+                hp = h.args.args[0].arg if h.args.args else None
+                rets = [x for x in ast.walk(h) if isinstance(x, ast.Return) and x.value is not None]
+                if hp is None or not rets:
+                    return 'unknown', f'unrecognised keyword encoding {norm(el)}'
+                all_good = True
+                for rt in rets:
+                    if not any(isinstance(x, ast.Name) and x.id == hp for x in ast.walk(rt.value)):
+                        # a constant for "no keywords" (an empty frozenset / tuple): equal only to itself
+                        if isinstance(rt.value, ast.Call) and not rt.value.args and not rt.value.keywords or (isinstance(rt.value, ast.Tuple) and not rt.value.elts):
+                            continue
+                        return 'unknown', f'unrecognised keyword encoding {norm(rt.value)} in {el.func.id}'
+                    f2 = _kwform(rt.value, hp)
+                    if f2 in GOOD_KW:
+                        continue
+                    if f2 in BAD_KW:
+                        return 'bad', f'keyword part {el.func.id}(...) returns {norm(rt.value)}: {BAD_KW[f2]}'
+                    if 'KW.values()' in f2 and 'KW.items()' not in f2:
+                        return 'bad', (f'keyword part {el.func.id}(...) returns {norm(rt.value)}: the values are taken in call order, apart from their '
+                                       'names - f(a=0, b=1) and f(b=0, a=1) get one entry, f(a=0, b=1) and f(b=1, a=0) two')
+                    if 'KW.keys()' in f2 or ('sorted(KW)' in f2 and 'KW.items()' not in f2 and 'KW[' not in f2):
+                        return 'bad', f'keyword part {el.func.id}(...) returns {norm(rt.value)}: names without (aligned) values'
+                    all_good = False
+                if all_good:
+                    kw_ok = True
+                else:
+                    return 'unknown', f'unrecognised keyword encoding in helper {el.func.id}'
             else:
                 return 'unknown', f'unrecognised keyword encoding {norm(el)}'
     if pos_ok and kw_ok:
